@@ -1119,6 +1119,8 @@ def _randint(func, args, kwargs):
     else:
         low, high, size = 0, a[0], a[1]
     lo, hi = lift(low), lift(high)
+    if not decide_bool(toint(lo) < toint(hi)):
+        raise RuntimeError("random_ expects 'from' to be less than 'to'")
     out = np.empty(tuple(size), dtype=object)
     ctx = C()
     for idx in np.ndindex(*tuple(size)):
@@ -1128,3 +1130,46 @@ def _randint(func, args, kwargs):
     s = Sym.make(out, kwargs.get("dtype") or torch.int64)
     s._g = {"taint": "random"}
     return s
+
+
+@handles("uniform_", "normal_", "random_", "bernoulli_", "exponential_", "log_normal_", "cauchy_", "geometric_")
+def _inplace_random(func, args, kwargs):
+    """in-place initialisers: every element becomes a fresh random-tainted symbol (range facts for uniform_)"""
+    a = args[0] if args else kwargs.get("tensor")
+    nm = func_name(func)
+    ctx = C()
+    out = np.empty(a._p.shape, dtype=object)
+    lo = getarg(args, kwargs, 1, "from" if False else "a") if nm == "uniform_" else None
+    hi = getarg(args, kwargs, 2, "b") if nm == "uniform_" else None
+    if nm == "uniform_" and lo is None: lo = kwargs.get("from", 0.0)
+    if nm == "uniform_" and hi is None: hi = kwargs.get("to", 1.0)
+    for idx in np.ndindex(*out.shape):
+        v = fresh("init", R)
+        if nm == "uniform_":
+            ctx.assume(z3.And(v >= toreal(lift(lo)), v <= toreal(lift(hi))))
+        out[idx] = v
+    a._p[...] = out
+    a._g = dict(a._g or {}); a._g["taint"] = "random"
+    return a
+
+
+@handles("kaiming_uniform_", "kaiming_normal_", "xavier_uniform_", "xavier_normal_", "orthogonal_", "trunc_normal_", "sparse_")
+def _init_random(func, args, kwargs):
+    a = args[0] if args else kwargs.get("tensor")
+    out = np.empty(a._p.shape, dtype=object)
+    for idx in np.ndindex(*out.shape):
+        out[idx] = fresh("init", R)
+    a._p[...] = out
+    a._g = dict(a._g or {}); a._g["taint"] = "random"
+    return a
+
+
+@handles("zeros_", "ones_", "constant_", "eye_", "dirac_")
+def _init_const(func, args, kwargs):
+    a = args[0] if args else kwargs.get("tensor")
+    nm = func_name(func)
+    if nm in ("eye_", "dirac_"): raise Unsupported(nm)
+    v = 0.0 if nm == "zeros_" else (1.0 if nm == "ones_" else getarg(args, kwargs, 1, "val"))
+    q = np.empty((), dtype=object); q[()] = conv_for(a.dtype)(lift(v))
+    a._p[...] = np.broadcast_to(q, a._p.shape)
+    return a
